@@ -98,6 +98,7 @@ def metamorphic(cases, obs):
 RULES_TTL = """@prefix sh: <http://www.w3.org/ns/shacl#> . @prefix ex: <http://ex.org/> .
 ex:R1 a sh:NodeShape ; sh:targetClass ex:C0 ; sh:rule [ a sh:TripleRule ; sh:subject sh:this ; sh:predicate ex:marked ; sh:object ex:Yes ] .
 ex:R2 a sh:NodeShape ; sh:targetSubjectsOf ex:p ; sh:rule [ a sh:TripleRule ; sh:subject sh:this ; sh:predicate ex:linked ; sh:object [ sh:path ex:p ] ] .
+ex:R3 a sh:NodeShape ; sh:targetSubjectsOf ex:q ; sh:rule [ a sh:TripleRule ; sh:subject [ sh:path ex:q ] ; sh:predicate ex:marked ; sh:object ex:Yes ] .
 ex:V1 a sh:NodeShape ; sh:targetNode %(nodes)s ; sh:property [ sh:path ex:marked ; sh:maxCount 0 ] .
 ex:V2 a sh:NodeShape ; sh:targetNode %(nodes)s ; sh:property [ sh:path ex:linked ; sh:minCount 1 ] .
 """
@@ -109,9 +110,15 @@ def rules_family(rng, n):
     import pyshacl
     stats, fails = {"rule_selection_cases": 0, "rule_selection_nonconforming": 0}, []
     for _ in range(n):
-        data, nodes, lits = S.gen_typed_data(rng, n_iri=rng.randint(3, 5), n_bn=0, n_lit=1, n_triples=rng.randint(4, 10))
+        data, nodes, lits = S.gen_typed_data(rng, n_iri=rng.randint(3, 5), n_bn=rng.randint(0, 2), n_lit=1, n_triples=rng.randint(4, 10))
         data.bind("ex", EX)
         iris = [x for x in nodes if isinstance(x, URIRef)]
+        # nodes that cannot be named in focus_nodes (blank nodes) are targets of the rule shapes as well: never selected, their rules stay
+        # silent - also the rule that writes about the node an ex:q edge leads to (which may be a selected one)
+        for b_ in [x for x in nodes if isinstance(x, rdflib.BNode)]:
+            data.add((b_, EX.q, rng.choice(iris)))
+            if rng.random() < 0.5:
+                data.add((b_, rdflib.RDF.type, EX.C0))
         sg = rdflib.Graph().parse(data=RULES_TTL % {"nodes": ", ".join(x.n3() for x in iris)}, format="turtle")
         Fs = rng.sample(iris, rng.randint(1, min(3, len(iris))))
         case = {"sg": sg, "data": data, "sel": {"F": Fs, "U": []}}
